@@ -168,7 +168,7 @@ def c20_2(ctx: Ctx):
         ctx.check(ok, dsd, dsd.node, "emptied index entries are deleted", "an emptied set stays in the index: any_return_edges stays true after the last return edge is gone")
 
 
-@rule("C20.3", ["C20", "C09", "C02"], "ReferenceCache keeps symbol<->node and parent<->children mirrors; nodes are unlinked only when empty or re-parented", 10)
+@rule("C20.3", ["C20", "C09", "C02", "C05"], "ReferenceCache keeps symbol<->node and parent<->children mirrors; nodes are unlinked only when empty or re-parented", 10)
 def c20_3(ctx: Ctx):
     repo = ctx.repo
     cls = repo.cls("_modify.cache.ReferenceCache")
